@@ -224,6 +224,27 @@ def f():
         out.append((type(led).__name__, dict(led), led.extreme, isinstance(led, dict), Ledger.listed("x")))
     return out
 """,
+    "parameter-named-like-the-function": """
+class Box:
+    def __init__(self, pool):
+        self.items = [1, 2]
+        self.pool = pool
+    @property
+    def pool(self):
+        return self._pool
+    @pool.setter
+    def pool(self, pool):
+        self._pool = pool
+        self._ind = [pool.get(i) for i in self.items]
+def scale(scale, x):
+    return scale * x
+def f():
+    def fact(n):
+        return 1 if n < 2 else n * fact(n - 1)
+    b = Box({1: "a"})
+    b.pool = {2: "b"}
+    return b._ind, b.pool, scale(3, 4), fact(5)
+""",
     "infinite-generator": """
 def naturals():
     i = 0
